@@ -321,3 +321,25 @@ PLANS["C12"] = {
                  R("tlv-c12", "rel", sweep=0, cases=100000000),
                  R("tlv-c12", "miri", sweep=0, cases=2000, timeout=3000)],
 }
+
+PLANS["C14"] = {
+    "level": "exploration",
+    "technique": "i128 window-predicate oracle over VouchedTime::new / check / now / get_local_time on a systematic grid (bases at 0, the edges, 2^63, within 70000 of u64::MAX x deltas around both window edges x right/wrong vouchers) and random triples; now() through a recording provider",
+    "rule": ("cases = (local time, base time, voucher) triples: a grid of 36 base times (0, 1, the window constants, a 2024 timestamp, the calendar limit, "
+             "2^63 +-1, u64::MAX - k for k in {0,1,500,2989..2991,59899..59901,62890,62891,70000} and random k <= 70000) x local = base + d for d in "
+             "{-59902..-59898, -1, 0, 1, 2988..2992, ...} plus absolute locals (PrimitiveDateTime::MIN/MAX, epoch -2..+2 ms, 2989..62891 ms after the "
+             "epoch) x voucher in {right, for base+1, for base-1, other parameters, random bits}; then seeded random triples (bases in the same regions, "
+             "deltas around the edges, one third with a sub-millisecond part away from the edges) and now() calls whose provider records the clock value "
+             "it is given and answers with now+d and a right/wrong voucher or an error. Oracle (i128): success <=> voucher is the unique voucher of base "
+             "and local_ms >= 0 and -59900 <= local_ms - base <= 2990; new and check agree; never a panic; get_local_time returns the local time exactly; "
+             "provider errors propagate. non-trivial = every evaluated triple; distinct = distinct base (grid) or distinct (verdict class, voucher kind, "
+             "base region, delta bucket)."),
+    "assumptions": ["local times exactly on a window or epoch edge are whole milliseconds (the statement does not define inclusiveness for a sub-millisecond excess; the crate truncates to ms)",
+                    "the crate's vouching parameters are the ones in its source; a wrong voucher is any other 64-bit value (the voucher map is a bijection)"],
+    "required_features": ["vtime.accepted", "vtime.rejected_bad_voucher", "vtime.rejected_outside_window", "vtime.rejected_before_epoch",
+                          "vtime.window_or_epoch_edge_cases", "vtime.base_within_70000_of_u64_max", "vtime.now_cases", "vtime.now_provider_error_propagated"],
+    "quick": [R("vtime", "dbg", cases=6000000, now_cases=60000)],
+    "thorough": [R("vtime", "dbg", cases=100000000, now_cases=400000),
+                 R("vtime", "rel", cases=400000000, now_cases=400000),
+                 R("vtime", "miri", cases=3000, now_cases=0, timeout=3000)],
+}
